@@ -181,7 +181,7 @@ PROPS.update({
     ),
     'C16': dict(
         level='other',
-        level_text='mixed: (proved) the per-character tables of the dna!/iupac! scanners are copied from bio-seq-derive/src/seqarray.rs on every run (rule R17) and Verus decides by evaluation, for all 256 byte values, that every character the runtime parser accepts is mapped by the macro to exactly BITS bits spelling that symbol code, bit 0 first, with no duplicate rows, and that the scanners have NO row for any other character (IUPAC: except X, which the module documentation lists as a spelling of the gap), so the fall-through `_ => Err` arm is what every other character reaches; SeqArray deref (first N*BITS bits of the word array) is verified in C03; (bounded over programs) token generation, bitarr!, word counting and the static are glue: generated literals of length 0..40, word-boundary lengths up to 257 (thorough 2049), every symbol at several positions, kmer! for K = 1..32 are expanded by the REAL macros when the harness crate is compiled against the working tree and compared with runtime parsing (==, len, symbols, hash, display, raw image); invalid literals (fixed set + every lower-case alphabet letter + random non-alphabet bytes) are compiled alone and must fail to compile while the control program of valid literals compiles',
+        level_text='mixed: (proved) the per-character tables of the dna!/iupac! scanners are copied from bio-seq-derive/src/seqarray.rs on every run (rule R17) and Verus decides by evaluation, for all 256 byte values, that every character the runtime parser accepts is mapped by the macro to exactly BITS bits spelling that symbol code, bit 0 first, with no duplicate rows, and that the scanners have NO row for any other character (IUPAC: except X, which the module documentation lists as a spelling of the gap), so the fall-through `_ => Err` arm is what every other character reaches; SeqArray deref (first N*BITS bits of the word array) is verified in C03; (bounded over programs) token generation, bitarr!, word counting and the static are glue: generated literals of length 0..40, word-boundary lengths up to 257 (thorough: see below), every symbol at several positions, kmer! for K = 1..32 are expanded by the REAL macros when the harness crate is compiled against the working tree and compared with runtime parsing (==, len, symbols, hash, display, raw image); literals up to 1024 IUPAC symbols / 2049 DNA bases in the thorough tier; one valid 2049-symbol IUPAC literal is compiled alone in every run and does NOT compile - known finding F12, reported as KNOWN-FINDING); invalid literals (fixed set + every lower-case alphabet letter + punctuation + random non-alphabet bytes) are compiled alone and must fail to compile while the control program of valid literals compiles',
         level_note='the quantifier ranges over programs (each literal is a separate macro expansion): the macro code works on syn/quote token streams, outside Verus and Kani; only the per-character core is decided deductively, the rest is one concrete execution per generated literal',
         technique='table extraction + evaluation inside Verus for the per-character core; compile-and-compare of generated programs for the glue (bounded)',
         explanation='obligations count the Verus verification conditions of the per-character lemma only; the literal programs are listed under bounded_standins (cases, rejects) and are not proofs',
